@@ -166,6 +166,11 @@ impl<'a> Lower<'a> {
         for (i, table) in self.children.iter().enumerate() {
             for (j, a_entry) in table.iter().enumerate() {
                 let start = FrameId(TreeId(i).as_frame().0 + HugeId(j).as_frame().0);
+                if start.0 >= self.frames() {
+                    // the last tree is only partially managed: no bitfield, nothing free
+                    a_entry.store(HugeEntry::new_with(0));
+                    continue;
+                }
                 let entry = a_entry.load();
 
                 if entry.huge() {
